@@ -3,10 +3,11 @@
    and export of the cases the Go driver cmd/c10 replays into the real code.
 
    INVARIANTS  EscRoundTrip LikeStructure            -- expected to hold
+               MatcherStructure (MC_Escape_matcher.cfg) -- expected to hold; a run of its own over strings <= 3
                LikeValue (MC_Escape_likevalue.cfg)   -- expected to hold since doLike escapes before quoting; checked in its
                                                         own run, a counterexample is TLC's witness for the binding
                Export                                -- always TRUE; prints one line per exported string:
-                   "CASE|<s>|<Esc(s)>|<LikeContent(s)>|<LikeDecoded(s)>|<escok><likestruct><likevalue>"
+                   "CASE|<s>|<Esc(s)>|<LikeContent(s)>|<LikeDecoded(s)>|<escok><likestruct><likevalue><regexplain>"
    Exported: every string of length <= ExportLen, and of the longer ones those with (Hash(s)+Seed) % SampleMod = 0. *)
 EXTENDS Escape
 
@@ -22,6 +23,14 @@ Spec == Init /\ [][Next]_s
 EscRoundTrip  == EscOK(s)
 LikeStructure == LikeStructOK(s)
 LikeValue     == LikeValueOK(s)
+MatcherStructure == MatcherOK(s)
+
+\* non-vacuity of the shortcut family: pasting a "plain" pattern between quotes is refuted by the quote alone, and by a quote
+\* after harmless characters (so the binding must send such strings through =~ / !~ and accept either rendering)
+RawShortcutRefuted == /\ ~RawShortcutOK(<<"sq">>)
+                      /\ ~RawShortcutOK(<<"a", "sq", "a">>)
+                      /\ RawShortcutOK(<<"a", "pct", "dash">>)
+ASSUME RawShortcutRefuted
 
 \* one printable character per class (no quote / backslash so that the TLC output line needs no unescaping)
 Code == [bs |-> "B", sq |-> "Q", dq |-> "D", nul |-> "Z", nl |-> "N", cr |-> "R", bsp |-> "P", tab |-> "T",
@@ -44,5 +53,5 @@ Selected == \/ Len(s) <= ExportLen
 
 Export == Selected =>
     PrintT("CASE|" \o Str(s) \o "|" \o Str(Esc(s)) \o "|" \o Str(LikeContent(s)) \o "|" \o Str(LikeDecoded(s))
-           \o "|" \o Flag(EscOK(s)) \o Flag(LikeStructOK(s)) \o Flag(LikeValueOK(s)))
+           \o "|" \o Flag(EscOK(s)) \o Flag(LikeStructOK(s)) \o Flag(LikeValueOK(s)) \o Flag(RegexPlain(s)))
 =============================================================================
